@@ -166,7 +166,8 @@ struct Runner : RunnerBase {
         auto arr = id_array(bases);
         c->info.type = deferred ? (type_id)g_idfn[num] : g_real_id[num];
         c->info.is_abstract = abs;
-        c->info.static_vptr = &svp[num];
+        // every registration record of a class refers to the class's one static v-table pointer variable
+        { auto it = g_alias.find(g_real_id[num]); c->info.static_vptr = &svp[it == g_alias.end() ? num : num_of(it->second)]; }
         c->info.first_base = arr->data(); c->info.last_base = arr->data() + arr->size() - 1;
         P::classes.push_back(c->info); c->live = true; classes.push_back(c);
     }
